@@ -43,7 +43,9 @@ def rule_regex(i, stored):
     base = docsan(stored)
     if base is None:
         return re.compile(r"^col%d_$" % i)
-    return re.compile("^" + re.escape(base) + r"_?(__?\d+)?_?$")
+    # the documented base, optionally followed by a disambiguating suffix that starts with an
+    # underscore (the suffix scheme itself is not part of the statement and is not modelled)
+    return re.compile("^" + re.escape(base) + r"(_\w*)?$")
 
 
 def _matching(adv, regs):
